@@ -92,6 +92,12 @@ def Map {α : Type} (o : Option α) (f : α → α) : Option α := o.map f
 def Pointer {α : Type} (o : Option α) : Option α := o
 /-- `err.Error()` / `ctx.Err()` on the `Option GoErr` representation. -/
 def Err (c : Gk.Ctx) : Gk.GoError := c
+/-- `err.Error()` -/
+def Error (e : Gk.GoError) : String :=
+  match e with
+  | some (.other s) => s
+  | some (.sentinel s) => s
+  | _ => ""
 end Option
 
 namespace Int
